@@ -49,7 +49,12 @@ _CALL_RE = re.compile(r'when calling (\w+)\((.*)\)\s*$', re.S)
 def _split_returns(text):
     idx = text.rfind(' (which returns')
     if idx >= 0:
-        return text[:idx]
+        text = text[:idx]
+    # a witness that also fixes the results of nondeterministic functions (random, time): the arguments are replayed
+    # natively without that patch; if the failure needs the patched result it does not reproduce (-> inconclusive)
+    idx = text.find(' with crosshair.patch_to_return(')
+    if idx >= 0:
+        text = text[:idx]
     return text
 
 
